@@ -4,16 +4,17 @@ import (
 	"fmt"
 	"go/token"
 	"go/types"
+	"strings"
 
 	"golang.org/x/tools/go/ssa"
 )
 
 func init() {
 	register(&Prop{
-		ID: "C05",
-		Decided: "(1) the synchronous (processDirectDataSync) and asynchronous (processDirectData) paths are the same pipeline: enrichData -> applyWhereAndAnalytic -> projectDirectRow -> delivery, each stage dominating the next and fed with the previous stage's output, and the only other module calls on the way are the frozen async extras; (2) rows are received from the input buffer only by the single processing goroutine (and the expansion migration), synchronous sinks are invoked inline in slice order (no go / channel hand-off in that loop); (3) a row rejected by WHERE produces nothing: applyWhereAndAnalytic returns keep=false whenever the predicate is false, and projection/delivery are reached only under keep=true; (4) the caller's row is not written (shared with C20, ownmap).",
+		ID:         "C05",
+		Decided:    "(1) the synchronous (processDirectDataSync) and asynchronous (processDirectData) paths are the same pipeline: enrichData -> applyWhereAndAnalytic -> projectDirectRow -> delivery, each stage dominating the next and fed with the previous stage's output, and the only other module calls on the way are the frozen async extras; (2) rows are received from the input buffer only by the single processing goroutine (and the expansion migration), synchronous sinks are invoked inline in slice order (no go / channel hand-off in that loop); (3) a row rejected by WHERE produces nothing: applyWhereAndAnalytic returns keep=false whenever the predicate is false, and projection/delivery are reached only under keep=true; (4) the caller's row is not written (shared with C20, ownmap).",
 		NotDecided: "projection values (aliases, nested paths, *), that the result contains exactly the selected columns, history independence of expression caches, order under the asynchronous worker pool (documented as unordered).",
-		Run: runC05,
+		Run:        runC05,
 	})
 }
 
@@ -155,8 +156,8 @@ func runC05(a *A) {
 		S := a.Named("stream", "Stream")
 		dc := a.FieldOf(S, "dataChan")
 		allowed := map[string]string{
-			"(*stream.DataProcessor).Process":     "the single processing goroutine",
-			"(*stream.Stream).expandDataChannel":  "migration of buffered rows into the larger channel, under the write lock",
+			"(*stream.DataProcessor).Process":    "the single processing goroutine",
+			"(*stream.Stream).expandDataChannel": "migration of buffered rows into the larger channel, under the write lock",
 		}
 		n := 0
 		for _, fn := range a.ModFuncs {
@@ -193,6 +194,7 @@ func runC05(a *A) {
 		}
 	})
 	a.Rule("flow/fresh-channel-per-iteration", 1, func() { a.ruleFreshChannelPerIteration() })
+	a.Rule("whomay/evaluators-read-only", 5, func() { a.ruleEvaluatorsReadOnly() })
 	a.Rule("flow/sync-sinks-inline", 1, func() {
 		S := a.Named("stream", "Stream")
 		ss := a.FieldOf(S, "syncSinks")
@@ -303,5 +305,129 @@ func (a *A) ruleFreshChannelPerIteration() {
 	}
 	if n == 0 {
 		a.Und(fname(fn)+"#channel-read-each-iteration", fn.Pos(), "no receive from the input channel found in the processing loop")
+	}
+}
+
+// ruleEvaluatorsReadOnly: the compiled predicate/expression objects (condition.ExprCondition,
+// expr.Expression) are shared: Stream.filter is evaluated by the processing goroutine and by every
+// EmitSync caller without a lock, and one object serves every row. Their evaluation methods must
+// therefore not keep per-evaluation state in the object: no store through the receiver, and no
+// address of receiver-owned storage handed to a pointer-receiver method or function outside the
+// module (e.g. a reused vm.VM), other than sync/atomic.
+func (a *A) ruleEvaluatorsReadOnly() {
+	type tgt struct{ rel, typ string }
+	n := 0
+	for _, t := range []tgt{{"condition", "ExprCondition"}, {"expr", "Expression"}} {
+		N := a.Named(t.rel, t.typ)
+		ms := a.Prog.MethodSets.MethodSet(types.NewPointer(N))
+		for i := 0; i < ms.Len(); i++ {
+			fo, ok := ms.At(i).Obj().(*types.Func)
+			if !ok || !strings.HasPrefix(fo.Name(), "Evaluate") && !strings.HasPrefix(fo.Name(), "evaluate") {
+				continue
+			}
+			root := a.Prog.FuncValue(fo)
+			if root == nil || root.Blocks == nil {
+				continue
+			}
+			n++
+			construct := fname(root) + "#read-only"
+			// functions reached with the receiver (or storage loaded from it) as an argument
+			type item struct {
+				fn    *ssa.Function
+				owned map[ssa.Value]bool // parameters that denote receiver-owned storage
+			}
+			seenFn := map[*ssa.Function]bool{}
+			work := []item{{root, map[ssa.Value]bool{root.Params[0]: true}}}
+			bad := ""
+			var badPos token.Pos
+			for len(work) > 0 && bad == "" {
+				it := work[0]
+				work = work[1:]
+				if seenFn[it.fn] {
+					continue
+				}
+				seenFn[it.fn] = true
+				var owned func(v ssa.Value, d int) bool
+				owned = func(v ssa.Value, d int) bool {
+					if d > 10 {
+						return false
+					}
+					if it.owned[v] {
+						return true
+					}
+					switch x := v.(type) {
+					case *ssa.FieldAddr:
+						return owned(x.X, d+1)
+					case *ssa.IndexAddr:
+						return owned(x.X, d+1)
+					case *ssa.UnOp:
+						if x.Op == token.MUL {
+							// a pointer/slice/map loaded from receiver-owned storage is still shared storage
+							switch x.Type().Underlying().(type) {
+							case *types.Pointer, *types.Slice, *types.Map:
+								return owned(x.X, d+1)
+							}
+						}
+					}
+					return false
+				}
+				allInstrs(it.fn, func(in ssa.Instruction) {
+					if bad != "" {
+						return
+					}
+					switch x := in.(type) {
+					case *ssa.Store:
+						if owned(x.Addr, 0) {
+							bad = fmt.Sprintf("%s stores to %s", fname(it.fn), TermOf(x.Addr, nil).String())
+							badPos = x.Pos()
+						}
+					case *ssa.MapUpdate:
+						if owned(x.Map, 0) {
+							bad = fmt.Sprintf("%s updates the map %s", fname(it.fn), TermOf(x.Map, nil).String())
+							badPos = x.Pos()
+						}
+					}
+					cc := callCommon(in)
+					if cc == nil {
+						return
+					}
+					callee := cc.StaticCallee()
+					for ai, arg := range cc.Args {
+						if !owned(arg, 0) {
+							continue
+						}
+						if callee != nil && a.fnInModule(callee) {
+							if callee.Blocks != nil && ai < len(callee.Params) {
+								work = append(work, item{callee, map[ssa.Value]bool{callee.Params[ai]: true}})
+							}
+							continue
+						}
+						// outside the module: an address of receiver-owned storage (not the pointer value the field holds)
+						if _, isAddr := arg.(*ssa.FieldAddr); !isAddr {
+							continue
+						}
+						if callee != nil && callee.Pkg != nil && (callee.Pkg.Pkg.Path() == "sync/atomic" || callee.Pkg.Pkg.Path() == "sync") {
+							continue
+						}
+						name := "a dynamic call"
+						if callee != nil {
+							name = fname(callee)
+						}
+						bad = fmt.Sprintf("%s passes the address %s to %s", fname(it.fn), TermOf(arg, nil).String(), name)
+						badPos = in.Pos()
+					}
+				})
+			}
+			pos := root.Pos()
+			if bad != "" {
+				pos = badPos
+			}
+			a.Check(bad == "", construct, pos,
+				fmt.Sprintf("no store through the receiver and no receiver-owned address leaves the module in %d functions", len(seenFn)),
+				bad+": the object is shared by the processing goroutine and every EmitSync caller and serves every row, so per-evaluation state kept in it makes a row's result depend on other rows and interleavings")
+		}
+	}
+	if n == 0 {
+		a.Und("evaluators", token.NoPos, "no Evaluate method found")
 	}
 }
